@@ -164,7 +164,8 @@ func runC15(c *Ctx, _ []string) {
 	type pair struct{ t, e, shape string }
 	pairs := []pair{{"ROLZX", "NONE", "text"}, {"ROLZ", "ANS0", "text"}, {"NONE", "TPAQX", "text"}, {"TEXT", "TPAQX", "text"}, {"TEXT", "TPAQ", "text"},
 		{"RLT", "HUFFMAN", "runs"}, {"RLT", "FPAQ", "runs"}, {"TEXT", "ANS0", "text"}, {"TEXT", "CM", "text"}, {"TEXT+RLT", "RANGE", "text"},
-		{"LZX", "NONE", "text"}, {"LZP+TEXT", "HUFFMAN", "text"}, {"ROLZX+ROLZ", "NONE", "text"}, {"NONE+LZ", "HUFFMAN", "text"}, {"TEXT+NONE+BWT", "ANS1", "text"}}
+		{"LZX", "NONE", "text"}, {"LZP+TEXT", "HUFFMAN", "text"}, {"ROLZX+ROLZ", "NONE", "text"}, {"NONE+LZ", "HUFFMAN", "text"}, {"TEXT+NONE+BWT", "ANS1", "text"},
+		{"NONE+ROLZX", "NONE", "text"}, {"ROLZX+NONE", "HUFFMAN", "text"}, {"NONE+LZX", "NONE", "text"}, {"RLT+ROLZX", "NONE", "runs"}}
 	for i := 0; i < 6*c.Scale; i++ {
 		pairs = append(pairs, pair{randChain(r, 3), entropyNames[r.Intn(len(entropyNames))], dataShapes[r.Intn(len(dataShapes))]})
 	}
@@ -195,6 +196,59 @@ func runC15(c *Ctx, _ []string) {
 			}
 			if what != "" {
 				c.Violation(map[string]any{"what": what, "data": describe(p.shape, 30000, 42)})
+			}
+		}
+	}
+	// a named stage inside a chain is the same function as the stage alone: the variant chosen for a name (ROLZ vs ROLZX,
+	// LZ vs LZX) does not depend on what else is in the chain
+	fwd := func(name string, in []byte) ([]byte, byte, string) {
+		ctx := map[string]any{"transform": name, "entropy": "NONE", "blockSize": uint(65536), "size": uint(len(in)), "bsVersion": uint(6), "jobs": uint(1)}
+		packed, err := transform.GetType(name)
+		if err != nil {
+			return nil, 0, err.Error()
+		}
+		t, err := transform.New(&ctx, packed)
+		if err != nil {
+			return nil, 0, err.Error()
+		}
+		dst := make([]byte, t.MaxEncodedLen(len(in)))
+		_, o, _ := t.Forward(append([]byte{}, in...), dst)
+		return dst[:o], t.SkipFlags(), ""
+	}
+	for _, a := range []string{"RLT", "ZRLT", "SRT", "RANK", "MTFT"} {
+		for _, b := range []string{"ROLZX", "ROLZ", "LZX", "LZ", "LZP"} {
+			for _, chain := range [][]string{{a, b}, {b, a}, {"NONE", b}, {b, "NONE", a}} {
+				for _, shape := range []string{"text", "runs"} {
+					data := mkData(shape, 20000, 43)
+					whole, flags, e1 := fwd(randCase(r, strings.Join(chain, "+")), data)
+					c.Count("evaluations", 1)
+					nontrivial++
+					cur := data
+					bit := byte(0x80)
+					var want byte = 0xFF
+					e2 := ""
+					for _, st := range chain {
+						if st == "NONE" {
+							continue
+						}
+						out, fl, e := fwd(st, cur)
+						if e != "" {
+							e2 = e
+							break
+						}
+						if fl&0x80 == 0 {
+							cur = out
+							want &^= bit
+						}
+						bit >>= 1
+					}
+					if e1 != "" || e2 != "" {
+						c.Violation(map[string]any{"what": fmt.Sprintf("chain %v: construction failed: %s %s", chain, e1, e2)})
+					} else if flags != want || !bytes.Equal(whole, cur) {
+						c.Violation(map[string]any{"what": fmt.Sprintf("chain %v is not the composition of its named stages (skip flags %02x vs %02x, %s vs %s)", chain, flags, want, short(whole), short(cur)),
+							"key": "impl:chain is not the composition of its named stages", "data": describe(shape, 20000, 43)})
+					}
+				}
 			}
 		}
 	}
